@@ -6,7 +6,7 @@
    carries the output the producer emitted at s, negative entries carry the default output, and the row's output is f of exactly those: no output was
    overwritten before its last scheduled reader. *)
 From Coq Require Import List Arith ZArith Bool.
-From Rex Require Import CompiledModel RunnerSym CheckSym BufferSpec Replay BufferSufficient.
+From Rex Require Import CompiledModel RunnerSym CheckSym BufferSpec Replay BufferSufficient ToTimings ToTimingsLaws ToTimingsExtra BufferFromMono.
 Open Scope Z_scope.
 
 (* a passed symbolic check implies the dataflow equations for the real run, for every step function and payload type *)
@@ -67,3 +67,14 @@ Print Assumptions C08_buffer_sufficient_instance.
 Theorem C08_last_generation_needed : check_schedule cx_inst = true /\ buffer_need cx_inst 0 = 1 /\ extra_ok cx_inst = false /\ check_sym cx_inst (1 :: 1 :: nil) 0 3 = false /\ check_sym cx_inst (2 :: 1 :: nil) 0 3 = true.
 Proof. exact @cx_last_generation. Qed.
 Print Assumptions C08_last_generation_needed.
+
+(* for the schedule rex.utils.to_timings (model) builds from the partitioner's monomorphism, check_schedule and extra_ok are derived from the decidable partitioner contract (check_mono, tmpl_ok, sup_covered): with ring sizes >= buffer_need no output is overwritten before its last scheduled reader (check_sym; with runner_dataflow: for every step function) *)
+Theorem C08_buffer_sufficient_from_partitioner : forall (I : inst) (tmpl : list (nat * nat)) (M : list mentry) (sizes : list Z) (n : nat), let J := set_slots I (to_timings I tmpl M) in check_mono I tmpl M = true -> tmpl_ok I tmpl = true -> sup_covered I M = true -> (forall c : nat, (c < length (i_conns J))%nat -> buffer_need J c <= size_of sizes (k_out (conn J c))) -> (n <= i_nparts J)%nat -> check_sym J sizes 0 n = true.
+Proof. exact @buffer_sufficient_from_partitioner. Qed.
+Print Assumptions C08_buffer_sufficient_from_partitioner.
+
+(* non-vacuity on the two-node instance *)
+Theorem C08_buffer_sufficient_from_partitioner_example : check_sym (set_slots exI (to_timings exI exT exM)) (2 :: 1 :: nil) 0 3 = true.
+Proof. exact @ex_buffer_from_partitioner. Qed.
+Print Assumptions C08_buffer_sufficient_from_partitioner_example.
+
